@@ -59,7 +59,7 @@ def fam_general(ctx, mode):
 
 
 def _normal(ctx, nname, tilt):
-    n0 = {'x': (1, 0, 0), 'y': (0, 1, 0), 'z': (0, 0, 1), 'yz': (0, 1, 1), 'xz': (1, 0, 1), 'xy': (1, 1, 0), 'negxy': (-1, 2, 0),
+    n0 = {'-x': (-1, 0, 0), '-y': (0, -2, 0), '-z': (0, 0, -1), 'x': (1, 0, 0), 'y': (0, 1, 0), 'z': (0, 0, 1), 'yz': (0, 1, 1), 'xz': (1, 0, 1), 'xy': (1, 1, 0), 'negxy': (-1, 2, 0),
           'negyz': (0, -1, 2), 'xyz': (1, 1, 1), 'neg': (-2, 1, 2), 'pyth': (2, 3, 6)}[nname]
     n = tuple(F(c) for c in n0)
     if tilt is not None:
@@ -173,7 +173,7 @@ def families(tier, seed):
     fams = [Family('general/grid', fam_general, ('grid',), must_reach=('built',))]
     if tier == 'thorough':
         fams.append(Family('general/real', fam_general, ('real',), must_reach=('built',)))
-    names = ['x', 'y', 'z', 'yz', 'xz', 'xy', 'negxy', 'negyz', 'xyz', 'neg', 'pyth']
+    names = ['x', 'y', 'z', '-x', '-y', '-z', 'yz', 'xz', 'xy', 'negxy', 'negyz', 'xyz', 'neg', 'pyth']
     for nm in names:
         fams.append(Family('forms/%s/concrete-normal' % nm, fam_forms, (nm, None, True), must_reach=('ok',)))
     tilts = [('yz', 0), ('xz', 1), ('xy', 2), ('x', 1), ('z', 0)] if tier == 'quick' else [(nm, i) for nm in ('x', 'y', 'z', 'yz', 'xz', 'xy', 'xyz', 'neg') for i in range(3)]
@@ -204,7 +204,7 @@ META = dict(
                 '(denotationally and through ==), that parametric vectors are independent and parallel to the plane, and that the Line forms agree.'),
     level_note='exact-real semantics; witnesses replayed with floats; normals from a finite catalogue plus 1-parameter tilt families',
     technique='symbolic execution of real code over exact reals (z3 QF_NRA), all paths',
-    bounds=dict(coefficients='{-2..2}^4 for Plane(a,b,c,d)', parameters='3 reals (point) or 1 real (tilt) in [-3,3]', normals='11 lattice normals, 5/24 tilt families'),
+    bounds=dict(coefficients='{-2..2}^4 for Plane(a,b,c,d)', parameters='3 reals (point) or 1 real (tilt) in [-3,3]', normals='14 lattice normals (every zero pattern, both signs of the axis directions), 5/24 tilt families'),
     outside_claim=['normals outside the catalogue / more than one tilting component at once', 'IEEE rounding'],
     assumptions=['components of symbolic normals are 0 or >= 1e-3'],
 )
